@@ -47,7 +47,7 @@ TraceInit ==
     /\ vec = [idle |-> A.idle, used |-> A.used, rel |-> A.rel]
     /\ E = {} /\ present = {} /\ npresent = 0 /\ info = NoInfo
     /\ pods = <<>> /\ ghost = <<>> /\ log = <<>> /\ phase = "trace" /\ pc = <<>> /\ seen = 0 /\ nops = 0
-    /\ act = Lbl("Init", "None", 0, "None", <<>>)
+    /\ act = Lbl("Init", "None", 0, "None", <<>>) /\ taint = FALSE
 
 TraceStep ==
   /\ l <= Len(Trace) /\ Trace[l].ev = "Step"
@@ -61,9 +61,23 @@ TraceStep ==
                  units |-> \A f \in {"idle", "used", "rel", "idlev", "usedv", "relv"} : ev[f].gpu % 1000 = 0]
      /\ act' = Lbl(ev.op, ev.call, ev.p, ev.st, ev.grp)
   /\ l' = l + 1
-  /\ UNCHANGED <<nd, kinds, pods, ghost, log, phase, pc, seen, nops, l0, G>>
+  /\ UNCHANGED <<nd, kinds, pods, ghost, log, phase, pc, seen, nops, taint, l0, G>>
 
-TraceNext == TraceStep
+\* Restore: the harness re-executed (silently) a prefix of calls that is logged and judged in another
+\* scenario; the state is taken over from the real projection, no prediction is made for this line
+TraceRestore ==
+  /\ l <= Len(Trace) /\ Trace[l].ev = "Restore"
+  /\ LET ev == Trace[l] IN
+     /\ A' = RealAcct(ev, G) /\ pred' = RealAcct(ev, G)
+     /\ E' = EntriesOf(ev)
+     /\ present' = PresentOf(ev) /\ npresent' = ev.npresent
+     /\ vec' = [idle |-> Vm(ev.idlev), used |-> Vm(ev.usedv), rel |-> Vm(ev.relv)]
+     /\ info' = [NoInfo EXCEPT !.op = "Restore", !.err = ev.err]
+     /\ act' = Lbl("Restore", "None", 0, "None", <<>>)
+  /\ l' = l + 1
+  /\ UNCHANGED <<nd, kinds, pods, ghost, log, phase, pc, seen, nops, taint, l0, G>>
+
+TraceNext == TraceStep \/ TraceRestore
 TraceSpec == TraceInit /\ [][TraceNext]_tvars
 
 TraceE == E
